@@ -3,7 +3,7 @@
    by the correspondence harness); for the ALU an independent mathematical definition (Word.v, m_alu) is given and the
    interpreter's ALU (i_alu, transcribed from instructions.go + holiman/uint256) is proved equal to it on all operands. *)
 From Coq Require Import ZArith List Bool.
-From Verif Require Import EVM.Word EVM.ProofsALU EVM.Model EVM.ProofsRun.
+From Verif Require Import EVM.Word EVM.ProofsALU EVM.Model EVM.ProofsRun EVM.GasSpec EVM.ProofsGas.
 Import ListNotations.
 Open Scope Z_scope.
 
@@ -69,6 +69,36 @@ Theorem staticcall_no_write fuel E self cs vs static d k to v args gas w cc :
   r_world (do_call (run fuel E) E self cs vs static d k to v args gas w cc) = w.
 Proof. exact (frame_static fuel E self cs vs static d k to v args gas w cc). Qed.
 
+(* 5. independent gas reference (GasSpec.v, from the Yellow Paper): the interpreter's memory charge is the difference of
+      C_mem(a) = 3a + floor(a^2/512) between the word counts before and after; C_mem is monotone and expansion costs add up;
+      the gas handed to a callee is min(requested, L(available - base)), L(n) = n - floor(n/64), and an unaffordable call
+      never passes the gas check *)
+Theorem mem_gas_matches_spec ow need :
+  0 <= ow -> 0 <= need -> to_words need * 32 <= 1099511627744 ->
+  mem_gas (32 * ow) (to_words need * 32) = Some (expansion_cost ow (Z.max ow (to_words need))).
+Proof. exact (ProofsGas.mem_gas_matches_spec ow need). Qed.
+
+Theorem mem_cost_monotone a b : 0 <= a <= b -> mem_cost a <= mem_cost b.
+Proof. exact (ProofsGas.mem_cost_monotone a b). Qed.
+
+Theorem expansion_cost_additive a b c : expansion_cost a b + expansion_cost b c = expansion_cost a c.
+Proof. exact (ProofsGas.expansion_cost_additive a b c). Qed.
+
+Theorem call_gas_matches_spec avail base req :
+  0 <= base <= avail -> avail < W64 -> 0 <= req ->
+  call_gas avail base req = callee_gas avail base req.
+Proof. exact (ProofsGas.call_gas_matches_spec avail base req). Qed.
+
+Theorem call_gas_unaffordable avail base req :
+  0 <= avail < base -> base < W64 -> 0 <= req ->
+  W64 <= base + call_gas avail base req \/ avail < base + call_gas avail base req.
+Proof. exact (ProofsGas.call_gas_unaffordable avail base req). Qed.
+
+Example gas_spec_nonvacuous :
+  mem_gas (32 * 2) (to_words 100 * 32) = Some 6 /\ expansion_cost 2 4 = 6 /\
+  call_gas 100000 700 50000 = 50000 /\ call_gas 100000 700 99999 = callee_gas 100000 700 99999 /\ callee_gas 100000 700 99999 = 97749.
+Proof. vm_compute. repeat split; reflexivity. Qed.
+
 (* ---------------------------------------------------------------- non-vacuity *)
 (* A (address 10): SSTORE(0,1); CALL B with all gas; INVALID.   B (address 11): SSTORE(1,7); STOP. *)
 Definition exA : list Z := [96;1;95;85; 95;95;95;95;95;96;11;90;241; 254].
@@ -124,6 +154,11 @@ Print Assumptions fuel_irrelevant.
 Print Assumptions failed_frame_no_effect.
 Print Assumptions failed_nested_frame_no_effect.
 Print Assumptions failed_creation_no_effect.
+Print Assumptions mem_gas_matches_spec.
+Print Assumptions mem_cost_monotone.
+Print Assumptions expansion_cost_additive.
+Print Assumptions call_gas_matches_spec.
+Print Assumptions call_gas_unaffordable.
 Print Assumptions static_no_write.
 Print Assumptions static_frame_no_write.
 Print Assumptions staticcall_no_write.
